@@ -580,15 +580,36 @@ func runOrchestrate(t *testing.T) {
 	exit := 0
 	nviol := 0
 	for _, v := range own {
-		cmd := exec.Command(self, "-test.run", "^TestSim$", "-test.timeout", "0", "-mode", "replay", "-replay", v.Replay, "-prop", s.Prop, "-verifdir", *fVerifDir)
-		b, err := cmd.CombinedOutput()
+		var b []byte
 		code := 0
-		if ee, ok := err.(*exec.ExitError); ok {
-			code = ee.ExitCode()
+		sameRule := false
+		for attempt := 0; attempt < 3; attempt++ {
+			cmd := exec.Command(self, "-test.run", "^TestSim$", "-test.timeout", "0", "-mode", "replay", "-replay", v.Replay, "-prop", s.Prop, "-verifdir", *fVerifDir)
+			var err error
+			b, err = cmd.CombinedOutput()
+			code = 0
+			if ee, ok := err.(*exec.ExitError); ok {
+				code = ee.ExitCode()
+			}
+			if code == 1 {
+				break
+			}
+			// exit 3 = the violation came back with another interleaving digest (goroutines
+			// that wake each other through channels run in parallel for a moment); the same
+			// rule firing again is still a reproduction of the violation, but try for the
+			// exact one first
+			if code == 3 && strings.Contains(string(b), "REPLAY-VIOLATION property="+s.Prop+" rule="+v.Viol.Rule+" ") {
+				sameRule = true
+				continue
+			}
+			break
 		}
-		if code == 1 && strings.Contains(string(b), "REPLAY-VIOLATION") {
+		if (code == 1 || sameRule) && strings.Contains(string(b), "REPLAY-VIOLATION") {
 			fmt.Printf("VIOLATION property=%s replay=%s\n", s.Prop, v.Replay)
 			fmt.Printf("  rule=%s: %s\n", v.Viol.Rule, firstLine(v.Viol.Msg))
+			if code != 1 {
+				fmt.Printf("  (replayed with the same rule but a different interleaving digest)\n")
+			}
 			nviol++
 			exit = 1
 		} else {
